@@ -82,10 +82,13 @@ def setRadical (o : Obj) (v : PyVal) : Except Err Obj :=
   | _ => .error .typeError
 
 /-- `Element.__init__(isotope, charge=…, is_radical=…)` -/
-def new (r : ElemRow) (iso c rad : PyVal) : Except Err Obj := do
-  let o ← setIsotope r ⟨Option.none, 0, false⟩ iso
-  let o ← setCharge o c
-  setRadical o rad
+def new (r : ElemRow) (iso c rad : PyVal) : Except Err Obj :=
+  match setIsotope r ⟨Option.none, 0, false⟩ iso with
+  | .error e => .error e
+  | .ok o1 =>
+    match setCharge o1 c with
+    | .error e => .error e
+    | .ok o2 => setRadical o2 rad
 
 /-- `sum(x * mass[i] for i, x in isotopes_distribution.items())` in units of 10⁻¹² (`KeyError` when a key has no mass) -/
 def naturalMass (mass : List (Nat × Nat)) : List (Nat × Nat) → Except Err Nat
@@ -93,7 +96,10 @@ def naturalMass (mass : List (Nat × Nat)) : List (Nat × Nat) → Except Err Na
   | (i, x) :: tl =>
     match mass.lookup i with
     | Option.none => .error .keyError
-    | some m => do let s ← naturalMass mass tl; pure (x * m + s)
+    | some m =>
+      match naturalMass mass tl with
+      | .error e => .error e
+      | .ok s => .ok (x * m + s)
 
 /-- `atomic_mass` as a function of the row and the isotope label only -/
 def massIso (r : ElemRow) : Option Nat → Except Err Nat
